@@ -3,11 +3,11 @@ package main
 // Verification-condition generation from go/ssa (passive form, loops cut at contracted headers).
 
 import (
-	"os"
 	"fmt"
 	"go/constant"
 	"go/token"
 	"go/types"
+	"os"
 	"sort"
 	"strings"
 
@@ -75,8 +75,8 @@ type FnVC struct {
 	immut            map[*ssa.Alloc]ssa.Value
 	siteOrd          map[ssa.Instruction]int
 	fvConst          map[*ssa.FreeVar]Term // immutable captured variables: one constant per variable
-	staleCallees     []string // callees whose contract names identifiers they no longer have: what is proved from them is undecided
-	lenient          bool     // salvage mode after a shape mismatch: call-site clauses that cannot be bound are skipped (recorded in skipped)
+	staleCallees     []string              // callees whose contract names identifiers they no longer have: what is proved from them is undecided
+	lenient          bool                  // salvage mode after a shape mismatch: call-site clauses that cannot be bound are skipped (recorded in skipped)
 	skipped          []string
 	cellOf           map[types.Object]ssa.Value // variables that live in a cell (closure-captured or address-taken)
 	curIdx           int
